@@ -239,7 +239,7 @@ def gen_problem(rng, with_transform):
         coeffs = [["scaled", fac, c] for c in coeffs]
     # the solution itself may be tiny or large (a density tail of 1e-9, a charge of 1e6): relative accuracy is what the
     # solver tolerances promise, so every term is multiplied by `amp` and errors are measured relative to it
-    amp = 1.0 if rng.random() < 0.75 else rng.choice([1e-9, 1e-6, 1e5])
+    amp = 1.0 if rng.random() < 0.75 else rng.choice([1e-9, 1e-6, 1e5, 1e5, 1e7, 1e9])
     if amp != 1.0 and order == 1 and rng.random() < 0.7:
         # a strictly positive solution (sum of positive exponentials): purely relative tolerances are well-posed for it
         terms = [["exp", round(rng.uniform(0.5, 1.5), 3), round(rng.uniform(-1.2, 1.2), 3)] for _ in range(rng.randint(1, 2))]
@@ -279,8 +279,25 @@ def reference_error(problem, tol):
         yy = (ya, yb)
         return np.array([yy[i][j] - sol_deriv(problem["terms"], j, np.array([ends[i]]))[0] for i, j in problem["bc"]])
 
+    def bc_jac(ya, yb):
+        # exact (a finite-difference estimate cancels to zero when the boundary data dwarf the guess - the reference must
+        # not share that weakness, or problems with large data are never admitted)
+        ja, jb = np.zeros((K, K)), np.zeros((K, K))
+        for row, (i, j) in enumerate(problem["bc"]):
+            (ja, jb)[i][row, j] = 1.0
+        return ja, jb
+
+    def fun_jac(t, y):
+        J = np.zeros((K, K, t.size))
+        for k in range(K - 1):
+            J[k, k + 1, :] = 1.0
+        lead = coeff_eval(problem["coeffs"][K], t)
+        for k in range(K):
+            J[K - 1, k, :] = -coeff_eval(problem["coeffs"][k], t) / lead
+        return J
+
     try:
-        res = solve_bvp(fun, bc, x, np.zeros((K, x.size)), tol=tol, max_nodes=5000)
+        res = solve_bvp(fun, bc, x, np.zeros((K, x.size)), tol=tol, max_nodes=5000, fun_jac=fun_jac, bc_jac=bc_jac)
     except Exception:  # noqa: BLE001
         return None
     if res.status != 0:
